@@ -263,7 +263,7 @@ def cases(tier, seed):
     # multi-target samples (wire + register + memory) and 5-node shapes
     shapes5 = all_shapes(5)
     pool = [s for n in (2, 3, 4) for s in all_shapes(n)]
-    nmulti = 600 if tier == 'quick' else 5000
+    nmulti = 600 if tier == 'quick' else 20000
     for i in range(nmulti):
         sh = rng.choice(pool)
         n = len(flatten(sh))
@@ -274,7 +274,7 @@ def cases(tier, seed):
             assign[t['name']] = {str(k): rng.choice(['pre', 'post']) for k in range(n) if mask >> k & 1}
         out.append({'shape': to_json(sh), 'targets': tg, 'assign': assign, 'K': 2, 'shared': rng.random() < 0.2})
     # memory targets whose conditional writes share address wires (pool of two address Inputs)
-    for i in range(200 if tier == 'quick' else 1500):
+    for i in range(200 if tier == 'quick' else 5000):
         sh = rng.choice(pool)
         n = len(flatten(sh))
         mask = rng.randrange(1, 1 << n)
@@ -283,7 +283,7 @@ def cases(tier, seed):
         out.append({'shape': to_json(sh), 'targets': [{'kind': 'mem', 'name': 't0'}], 'assign': {'t0': amap}, 'K': 2,
                     'addrs': {'t0': addrs}})
     # right-hand sides other than a fresh Input: the target register itself (an explicit hold) and integer constants
-    for i in range(300 if tier == 'quick' else 2000):
+    for i in range(300 if tier == 'quick' else 8000):
         sh = rng.choice(pool)
         n = len(flatten(sh))
         kind = rng.choice(['reg', 'reg_d', 'reg_d', 'wire_d', 'mem'])
@@ -294,7 +294,7 @@ def cases(tier, seed):
                     'rhs': {'t0': rhs}})
     for sh in shapes5:
         n = 5
-        reps = 1 if tier == 'quick' else 8
+        reps = 1 if tier == 'quick' else 24
         for _ in range(reps):
             mask = rng.randrange(1, 1 << n)
             amap = {str(k): rng.choice(['pre', 'post']) for k in range(n) if mask >> k & 1}
@@ -311,7 +311,7 @@ def bounds(tier):
     return {'shapes': 'all ordered with/otherwise forests with <= 4 nodes x all assignment placements for one target '
                       '(wire/register alternating) + seeded pre/post placements for all five target kinds; all 197 five-node '
                       'shapes' + (' ; all 903 six-node shapes' if tier != 'quick' else ''),
-            'multi-target samples': 600 if tier == 'quick' else 5000, 'K': 2}
+            'multi-target samples': 600 if tier == 'quick' else 20000, 'K': 2}
 
 
 def site_of(case):
